@@ -18,6 +18,11 @@ Round 4: overlays are also registered INSIDE the internal window and removed aga
 calls that are REJECTED or name no location (c11_gen.gen_rej) occur in the configuration sequence and between
 accesses and must leave no trace (Checker._step_rej); the bulk view of the internal memory is compared with the bus at
 the end of a machine (bulk_check).
+Round 5: PORT-SIZED overlays (1-3 bytes, narrower than a wide access; 1 configuration in 3) and an address class that
+places accesses at every alignment around any region of 1-3 bytes -- half of them ENCLOSING it (first and last byte
+outside, the region strictly inside); Rust ROM images also through the system-image entry point
+(load_pce500_system_image / .._into_memory + map) with generated image lengths (full 1 MiB, longer, window-sized,
+in between), situation flag "sysimg".  Both dimensions draw from a stream of their own (c11_gen.gen_case: st2).
 rs-cpu additionally runs a model-free composition twin (see run_twin_batch) for wide accesses inside the internal
 memory window, observed through CPU byte loads, so that the device register block at 0xF0.. is covered by
 "multi-byte accesses equal the composition of byte accesses" without modelling the devices.
@@ -48,6 +53,13 @@ RULE = ("machines = (memory configuration, history of 8/16/24-bit loads and stor
         "accesses and must leave every sentinel and the latest stores unchanged; stored values include landmark "
         "values (zero / 0xFF bytes); at the end of a machine the bulk view of the internal memory "
         "(get_internal_memory_bytes / internal_slice) must agree with the bus. "
+        "Round 5: 1 configuration in 3 adds 1-3 port-sized overlays (1-3 bytes, some adjacent to / one byte away from "
+        "another overlay); in edge/mixed histories 1 access in 6 of a configuration with a region of 1-3 bytes is "
+        "placed at a generated alignment around it, half of the wide ones enclosing it (labels "
+        "op:<ld|st>24/<api>-enclosing-narrow-region = executed and checked); 1 Rust configuration in 4 loads the ROM "
+        "image through load_pce500_system_image (rs-cpu) / load_pce500_system_image_into_memory + "
+        "configure_pce500_memory_map (rs) with an image of 1 MiB / 1 MiB + 256 / 256 KiB / 256 KiB + 1 / 512 KiB / "
+        "1 MiB - 1 bytes (labels cfg:sysimg=*, op:st-into-readonly-window-of-full-system-image). "
         "Non-trivial = the history contains a store whose cells are later loaded through a different raw address "
         "(alias or overlapping neighbour access), or a store into a read-only/absent cell; distinct = "
         "hash(configuration, history). rs-cpu: every 16/24-bit access lying inside the internal window is also run as "
@@ -70,6 +82,9 @@ def _cfg_steps_rs(cfg: Dict[str, Any]) -> List[List[Any]]:
             steps.append(["slice", M.ROM_LO, 0x40000, rom["k"]])
         elif rom["api"] == "window":
             steps.append(["rom_window", 0x40000, rom["k"]])
+            mapped = True
+        elif rom["api"] == "sysimg":
+            steps.append(["sys_image", rom["len"], rom["k"]])
             mapped = True
     if cfg.get("map"):
         steps.append(["pce500_map"])
@@ -797,6 +812,10 @@ def _shard(task: Tuple[int, int, str, int, int]) -> Report:
             kinds = [x[0] for x in M.steps(cfg)]
             if "ovl" in kinds and any(k != "ovl" for k in kinds[kinds.index("ovl"):]):
                 lab.append("cfg:overlay-before-card-call")
+        if cfg.get("rom") and cfg["rom"]["api"] == "sysimg":
+            ln = cfg["rom"]["len"]
+            lab.append("cfg:sysimg=" + ("full-1MiB" if ln == 0x100000 else ("longer" if ln > 0x100000 else
+                                        ("window-sized" if ln == 0x40000 else "short"))))
         if cfg.get("ro"):
             lab.append("cfg:ro-ranges")
         if cfg.get("mirror"):
@@ -812,6 +831,10 @@ def _shard(task: Tuple[int, int, str, int, int]) -> Report:
         if any(x[0] == "rm" for x in M.steps(cfg)):
             lab.append("cfg:overlay-removed-again" if len(M.live_overlays(cfg)) < len(cfg.get("ovl") or [])
                        else "cfg:remove-before-registration")
+        narrow = G.narrow_regions(m)
+        if narrow:
+            lab.append("cfg:narrow-region(1-3 bytes)")
+        sysfull = bool(cfg.get("rom")) and cfg["rom"]["api"] == "sysimg" and cfg["rom"]["len"] >= 0x100000
         after_rej = False
         for op in case["ops"][:checked]:
             if op[0] == "rej":
@@ -821,6 +844,17 @@ def _shard(task: Tuple[int, int, str, int, int]) -> Report:
             regions, flags = M.describe(m, op[1], op[2] // 8)
             if after_rej and ("card" in regions or "ovlp" in regions or "oram" in regions):
                 lab.append("op:" + op[0] + "-in-overlay-after-rejected-call")
+            if narrow and op[2] > 8:
+                cs = m.cells(op[1], op[2] // 8)
+                for lo, hi in narrow:
+                    if cs[0] < lo and hi < cs[-1] and cs[-1] - cs[0] == len(cs) - 1:
+                        lab.append(f"op:{op[0]}{op[2]}/{op[-1]}-enclosing-narrow-region")
+                        rep.extra["enclosing_accesses"] = rep.extra.get("enclosing_accesses", 0) + 1
+                    elif cs[0] <= hi and lo <= cs[-1] and cs[-1] - cs[0] == len(cs) - 1:
+                        lab.append(f"op:{op[0]}-across-narrow-region-edge")
+            if sysfull and op[0] == "st" and any(r in ("ro", "rom") for r in regions.split("|")):
+                lab.append("op:st-into-readonly-window-of-full-system-image")
+                rep.extra["sysimg_ro_stores"] = rep.extra.get("sysimg_ro_stores", 0) + 1
             if "int-ovlp" in regions:
                 lab.append("op:" + op[0] + "-in-internal-overlay")
             if "ovlp" in regions:
